@@ -153,9 +153,13 @@ class Env:
         self.inl.expand = self.sy.expand
         self.park_flags = None    # flags the loop thread has set on every path into wait() and clears only after it: reading one
                                   # false while holding the mutex proves that the thread is not blocked
+        self.gone_flags = set()   # flags the loop thread stores before it gives up its thread while the AsyncLoop lives
+        self.deferred = None      # std::function member of AsyncLoop that (re)launches the loop closure
         self.alias_pol = {}       # call expression -> False when it returns the *negation* of the value whose tokens it carries
         self.fids = set()         # declarations that denote the user functor (constructor parameter + helper parameters)
-        self.enabling = set()     # (field, value) stores that can turn a wait predicate true
+        self.enab = {}            # condition variable -> (field, value) stores that can turn a predicate waited for on it true
+        self.pred_conseq = {}
+        self.stop_waits = []      # condition-variable waits of stop() that establish insideLoopBody == false
         self.counts = {R1: 0, R2: 0, R3: 0, R4: 0, R5: 0, R6: 0}
         self.launch_kinds = set()
 
@@ -412,9 +416,11 @@ def predicate_enabling(E, pred_expr):
     fs = sorted(tree_fields(t, set()))
     en = set()
     implied = {(f, v) for f in fs for v in (True, False)}      # (f, v): f == v implies the predicate
+    conseq = {(f, v) for f in fs for v in (True, False)}       # (f, v): the predicate implies f == v
     for bits in range(1 << len(fs)):
         env = {f: bool(bits >> i & 1) for i, f in enumerate(fs)}
         if ev_tree(t, env):
+            conseq -= {(f, not env[f]) for f in fs}
             continue
         implied -= {(f, env[f]) for f in fs}
         for f in fs:
@@ -423,6 +429,7 @@ def predicate_enabling(E, pred_expr):
                 env2[f] = v
                 if ev_tree(t, env2):
                     en.add((f, v))
+    E.pred_conseq[id(pred_expr)] = conseq
     return en, implied
 
 
@@ -541,8 +548,10 @@ def check_loop_closure(E, f, lam, op):
                 found.und(R1, 'the loop thread itself writes %s: not modelled' % fld[1], node)
                 return [st]
             if fld is not None and fld[0] == DATA:
-                # another flag written by the loop thread (e.g. "parked"): remember its last value on this path
-                bvals = frozenset({p for p in bvals if p[0] != ('P', fld)} | {(('P', fld), val)})
+                # another flag written by the loop thread (e.g. "parked", "task launched"): remember its last value on this path,
+                # and that shouldBeRunning has not been re-read since ('R')
+                bvals = frozenset({p for p in bvals if p[0] not in (('P', fld), ('R', fld), ('X', fld))} |
+                                  {(('P', fld), val), (('R', fld), False if order == SEQ_CST else None)})
                 return [(pub, chk, toks, locks, known, obs, bvals)]
             return [st]
         if kind == 'load':
@@ -552,11 +561,20 @@ def check_loop_closure(E, f, lam, op):
                 new.add((node['id'], 1 if order == SEQ_CST else 2))
             if fld in (RUN, ALIVE) and LockState.holds(locks, MTX):
                 new.add((node['id'], 'o', fld))
+            if fld in (RUN, ALIVE):
+                new.add((node['id'], 'v', fld, order == SEQ_CST))     # last value this path saw (for the exits of the thread)
             toks = addtoks(toks, node['id'], new)
             return [(pub, chk, toks, locks, known, obs, bvals)]
         if kind == 'rmw':
             if ev[1] in FLAGS:
                 found.und(R1, 'read-modify-write %s on %s: not modelled' % (ev[2], ev[1][1]), ev[3])
+                return [st]
+            a_ = sy.atomic_op(ev[3])
+            if ev[1] is not None and ev[1][0] == DATA and ev[2] == 'exchange' and a_ is not None and a_.get('value') is True:
+                # exchange(true) on another flag: the result says whether it was set before; afterwards it is set
+                toks = addtoks(toks, ev[3]['id'], {(ev[3]['id'], 'x', ev[1])})
+                bvals = frozenset({p for p in bvals if p[0] != ('P', ev[1])} | {(('P', ev[1]), True)})
+                return [(pub, chk, toks, locks, known, obs, bvals)]
             return [st]
         if kind == 'wait':
             waits.append((ev, st, found.here()))
@@ -592,6 +610,15 @@ def check_loop_closure(E, f, lam, op):
                 continue
             if t[1] == 'o':
                 obs = frozenset({p for p in obs if p[0] != t[2]} | {(t[2], truth)})
+            elif t[1] == 'v':
+                bvals = frozenset({p for p in bvals if p[0] != ('V', t[2])} | {(('V', t[2]), truth)})
+                if t[2] == RUN and not truth and t[3]:
+                    # shouldBeRunning re-read (seq_cst) and found false: flags stored before this point are "published, then checked"
+                    bvals = frozenset({p for p in bvals if not (isinstance(p[0], tuple) and p[0][0] == 'R')} |
+                                      {(p[0], True) for p in bvals if isinstance(p[0], tuple) and p[0][0] == 'R' and p[1] is False})
+            elif t[1] == 'x':
+                if truth:
+                    bvals = frozenset({p for p in bvals if p[0] != ('X', t[2])} | {(('X', t[2]), True)})
             elif truth:
                 chk = 1 if t[1] == 1 else (chk or 2)
         return [(pub, chk, toks, locks, known, obs, bvals)]
@@ -601,6 +628,36 @@ def check_loop_closure(E, f, lam, op):
 
     res, _outs = E.inl.explore(op, [(0, 0, frozenset(), frozenset(), frozenset(), frozenset(), frozenset())], transfer, refine,
                                C03Hooks(E, found, R1, bind_ret, toks_idx=2))
+
+    # ---- R-C03-3, exit instead of park: the thread may leave while the AsyncLoop lives (threadShouldBeAlive not seen false) only
+    # after "publish, then check": store a flag that start() tests (G), then re-read shouldBeRunning (seq_cst) and find it false -
+    # or after learning from an exchange on G that a new runner has already been launched
+    for (st, _rv, via) in _outs:
+        d = dict(st[6])
+        if d.get(('V', ALIVE)) is False:
+            continue                            # ordinary exit: the destructor asked for it
+        ents = [k for k in res.pred if k[0] == via]
+        at = ents[0] if ents else None
+        rets = [n_ for (bb, ii, n_) in g.stmts() if bb.id == via and n_.get('kind') == 'ReturnStmt']
+        node = rets[0] if rets else None
+        stored = [k_[1] for k_ in d if isinstance(k_, tuple) and k_[0] == 'R']
+        if any(d.get(('X', fl)) for fl in stored):
+            E.gone_flags |= {fl for fl in stored if d.get(('X', fl))}
+            continue                            # an exchange told the thread that another runner was launched
+        if not stored:
+            found.und(R3, 'the loop thread can leave while the AsyncLoop is alive (threadShouldBeAlive not seen false) without '
+                      'leaving a mark for start(): restart protocol not recognised', node)
+            continue
+        unchecked = [fl for fl in stored if d.get(('R', fl)) is not True]
+        if unchecked or d.get(('V', RUN)) is not False:
+            found.viol(R3, CLOSURE, 'exit-without-recheck', 'the loop thread gives up its thread / task when it finds the loop stopped: it '
+                       'stores %s and returns without re-reading shouldBeRunning (seq_cst) *after* that store. start() stores '
+                       'shouldBeRunning = true and then tests %s; if it runs between the loop\'s test of shouldBeRunning and the store, '
+                       'it still sees the old value of %s, launches nothing, and the thread leaves: the start is lost'
+                       % (', '.join(fl[1] for fl in (unchecked or stored)), ', '.join(fl[1] for fl in (unchecked or stored)),
+                          ', '.join(fl[1] for fl in (unchecked or stored))), node, at)
+        else:
+            E.gone_flags |= set(stored)
 
     # ---- R-C03-1, loop side
     inst = 'loop closure of %s %s [%s]' % (f['q'].replace('rkcommon::tasking::', ''), f['fty'], tu.config)
@@ -666,14 +723,14 @@ def check_loop_closure(E, f, lam, op):
                     found.viol(R3, CLOSURE, 'predicate-ignores-' + ALIVE[1], 'the thread can block in wait(lock) without having seen '
                                'threadShouldBeAlive == true under the mutex: a destructor that already ran is not noticed and '
                                'join never returns', node, where=where)
-                E.enabling |= {(fl, not v) for (fl, v) in obs if fl in FLAGS}
+                E.enab.setdefault(cv, set()).update({(fl, not v) for (fl, v) in obs if fl in FLAGS})
             continue
         pe = predicate_enabling(E, pred)
         if pe is None:
             found.und(R3, 'wait predicate is not a single return of a boolean combination of atomic flag loads', node)
             continue
         en, implied = pe
-        E.enabling |= en
+        E.enab.setdefault(cv, set()).update(en)
         en = implied
         if (RUN, True) not in en:
             found.viol(R3, CLOSURE, 'predicate-ignores-' + RUN[1], 'shouldBeRunning == true does not imply the wait predicate: '
@@ -739,9 +796,25 @@ def check_stop(E):
             return [(runv, cleared, q, toks)]
         if kind == 'rmw' and ev[1] in FLAGS:
             found.und(R1, 'read-modify-write %s on %s: not modelled' % (ev[2], ev[1][1]), ev[3])
-        if kind in ('locks', 'wait', 'm-lock', 'lk-lock'):
-            found.und(R1, 'stop() synchronises through a mutex / condition variable: a different stop protocol than the two-flag '
-                      'handshake, not modelled', n)
+        if kind == 'wait':
+            # stop() sleeps instead of spinning: wait(lock, pred) returns only with pred true, evaluated under the mutex; if pred
+            # implies insideLoopBody == false this is the observation the handshake needs (its wake-ups are R-C03-3's business)
+            _k, cv, lv, pred, flavour, node = ev
+            d = tu.node(lv) if lv is not None else None
+            decl = tu.par(d) if d is not None else None
+            okl = decl is not None and decl.get('kind') == 'DeclStmt' and any(v_ == lv and m_ == MTX and h_ for v_, m_, h_, _x in sy.lock_decl(decl))
+            pe = predicate_enabling(E, pred) if pred is not None else None
+            if flavour != 'wait' or pe is None or not okl or cv is None or cv[0] != DATA:
+                found.und(R1, 'stop() waits on a condition variable in a form that is not modelled (timed / no predicate / lock not on %s)'
+                          % MTX[1], node)
+                return [st]
+            E.enab.setdefault(cv, set()).update(pe[0])
+            if (INSIDE, False) in E.pred_conseq.get(id(pred), ()) and cleared:
+                E.stop_waits.append(node)
+                return [(runv, cleared, 1, toks)]
+            return [st]
+        if kind in ('m-lock', 'lk-other', 'm-other'):
+            found.und(R1, 'stop() locks a mutex by hand: not modelled', n)
         if kind == 'call':
             cf = tu.callee_fn(ev[2])
             if cf is not None and cf.get('rec') == LOOP:
@@ -804,7 +877,8 @@ def check_signals(E, f, label, fnkey):
     park = E.park_flags or set()
 
     # state: (locks, known, owe, nscope, cs, toks)
-    #   owe: (flag name, critical section number) of predicate-enabling stores still waiting for their notify; cs: number of
+    #   owe: (flag name, critical section number, condition variable) of predicate-enabling stores still waiting for their
+    #   notify on that condition variable; nscope: condition variables notified in the current critical section; cs: number of
     #   the current / last critical section of runningMutex; toks: (load node or local, park flag, cs) = value of a "parked"
     #   flag (set by the loop thread under the mutex before every wait) read in that critical section
     def transfer(blk, i, e, st):
@@ -823,7 +897,7 @@ def check_signals(E, f, label, fnkey):
             if prob:
                 found.und(R3, prob, tu.node(e[1]) if e[0] == 'S' else None)
             if LockState.holds(locks2, MTX) != LockState.holds(locks, MTX):
-                nscope = False
+                nscope = frozenset()
                 if LockState.holds(locks2, MTX):
                     cs = min(cs + 1, 6)
             return [(locks2, known, owe, nscope, cs, toks)]
@@ -832,16 +906,23 @@ def check_signals(E, f, label, fnkey):
         if kind == 'store':
             _k, fld, val, order, node = ev
             vals = (True, False) if val is None else (val,)
-            if any((fld, v) in E.enabling for v in vals):
+            cvs = sorted(c for c, en in E.enab.items() if any((fld, v) in en for v in vals))
+            if cvs:
                 nstores.add(node['id'])
                 if not LockState.holds(locks, MTX):
-                    found.viol(R3, fnkey, 'store-%s-outside-lock' % fld[1], 'the store %s = %s can turn the loop\'s wait predicate true '
-                               'but is made outside a lock scope of %s: it can fall between the waiter\'s predicate test and its '
-                               'blocking, and the notify is lost' % (fld[1], str(val).lower(), MTX[1]), node)
-                if not (nscope and LockState.holds(locks, MTX)):
-                    owe = frozenset(set(owe) | {(fld[1], cs if LockState.holds(locks, MTX) else -1)})
+                    found.viol(R3, fnkey, 'store-%s-outside-lock' % fld[1], 'the store %s = %s can turn the predicate of a wait on %s '
+                               'true but is made outside a lock scope of %s: it can fall between the waiter\'s predicate test and its '
+                               'blocking, and the waiter (%s) sleeps on' % (fld[1], str(val).lower(), '/'.join(c[1] for c in cvs), MTX[1],
+                                                                          'the loop thread' if cvs == [CV] else 'stop() / the destructor'),
+                               node)
+                for c in cvs:
+                    if not (c in nscope and LockState.holds(locks, MTX)):
+                        owe = frozenset(set(owe) | {(fld[1], cs if LockState.holds(locks, MTX) else -1, c)})
             return [(locks, known, owe, nscope, cs, toks)]
         if kind == 'notify':
+            if ev[1] != CV and ev[1] in E.enab:
+                return [(locks, known, frozenset(o for o in owe if o[2] != ev[1]),
+                         frozenset(set(nscope) | {ev[1]}) if LockState.holds(locks, MTX) else nscope, cs, toks)]
             if ev[1] == CV:
                 if getattr(E, 'cv_shared', False) is True and last(tu.sd(ev[2]).get('q')) == 'notify_one':
                     found.viol(R3, fnkey, 'notify-one-on-shared-condvar', 'notify_one() on a condition variable that all AsyncLoop '
@@ -849,7 +930,8 @@ def check_signals(E, f, label, fnkey):
                                'instance\'s thread, which re-checks its own predicate and sleeps again; this loop is not woken - '
                                'start() is not seen within bounded time, the destructor hangs in join(). Use notify_all() or '
                                'per-instance state', ev[2])
-                return [(locks, known, frozenset(), nscope or LockState.holds(locks, MTX), cs, toks)]
+                return [(locks, known, frozenset(o for o in owe if o[2] != CV),
+                         frozenset(set(nscope) | {CV}) if LockState.holds(locks, MTX) else nscope, cs, toks)]
             return [st]
         return [st]
 
@@ -864,18 +946,19 @@ def check_signals(E, f, label, fnkey):
             if t[0] == tid and not truth:
                 # "nobody is parked", read in critical section t[2]: a store made in that same critical section needs no notify -
                 # a waiter that has not blocked yet evaluates its predicate under the mutex after this section and sees the store
-                owe = frozenset(o for o in owe if o[1] != t[2])
+                owe = frozenset(o for o in owe if not (o[1] == t[2] and o[2] == CV))
         return [(locks, known, owe, nscope, cs, toks)]
 
-    res, outs = E.inl.explore(f, [(frozenset(), frozenset(), frozenset(), False, 0, frozenset())], transfer, refine,
+    res, outs = E.inl.explore(f, [(frozenset(), frozenset(), frozenset(), frozenset(), 0, frozenset())], transfer, refine,
                               C03Hooks(E, found, R3, toks_idx=5))
     for (st, _rv, via) in outs:
         if g.blocks[via].noret:
             continue
-        for fld in sorted({o[0] for o in st[2]}):
+        for fld, c in sorted({(o[0], o[2]) for o in st[2]}):
             ents = [k for k in res.pred if k[0] == via]
-            found.viol(R3, fnkey, 'no-notify-after-' + fld, 'a path stores %s (which can turn the wait predicate true) and returns '
-                       'without notify on %s: the sleeping loop thread is not woken' % (fld, CV[1]), None, ents[0] if ents else None)
+            found.viol(R3, fnkey, 'no-notify-after-' + fld, 'a path stores %s (which can turn the predicate of a wait on %s true) and '
+                       'returns without notify on %s: the sleeping %s is not woken'
+                       % (fld, c[1], c[1], 'loop thread' if c == CV else 'caller of stop() / destructor'), None, ents[0] if ents else None)
     if nstores or found.v or found.u:
         E.count(R3, max(1, len(nstores)))
         emit(ctx, tu, g, res, found, '%s [%s]' % (label, tu.config), (R3,), tu.fn_loc(f),
@@ -891,29 +974,50 @@ def check_start(E):
     g = tu.cfg(f)
     found = Found(E.inl)
     FN = 'AsyncLoop::start'
+    gone = set(E.gone_flags)        # flags the loop thread stores before giving up its thread: start() has to test them
 
-    # state: (runv, setflag, toks)
+    def is_deferred_call(n, name):
+        """call of <name> on the std::function member that relaunches the loop closure"""
+        if E.deferred is None or n is None or n.get('kind') not in ('CXXOperatorCallExpr', 'CXXMemberCallExpr'):
+            return False
+        s_, obj, _a = tu.call_parts(n)
+        return obj is not None and sy.field(obj) == E.deferred and last(s_.get('q')) == name
+
+    # state: (runv, setflag, toks, tested, needs, did)
+    #   tested: after the store shouldBeRunning = true the path has examined the loop thread's "gone" mark (or found that there is
+    #   no deferred launcher); needs: the mark said the thread is gone; did: the launcher was called
     def transfer(blk, i, e, st):
-        runv, setf, toks = st
+        runv, setf, toks, tested, needs, did = st
         ev = sy.event(e)
         n = tu.node(e[1]) if e[0] == 'S' else None
+        if n is not None and is_deferred_call(n, 'operator bool'):
+            return [(runv, setf, addtoks(toks, n['id'], {(n['id'], 'df')}), tested, needs, did)]
+        if n is not None and is_deferred_call(n, 'operator()'):
+            return [(runv, setf, toks, tested, needs, True)]
         if ev is None:
             if n is not None:
                 toks = local_copy(tu, n, toks)
-            return [(runv, setf, toks)]
+            return [(runv, setf, toks, tested, needs, did)]
         if ev[0] == 'store':
             _k, fld, val, order, node = ev
             if fld == RUN:
                 if val is None:
                     found.und(R3, 'store of a non-constant value to shouldBeRunning in start()', node)
-                return [(None, bool(val), frozenset())]
+                return [(None, bool(val), frozenset(), False, False, False)]
             if fld == INSIDE:
                 found.viol(R1, FN, 'writes-insideLoopBody', 'start() writes insideLoopBody, which belongs to the loop thread', node)
             return [st]
         if ev[0] == 'load' and ev[1] == RUN:
-            return [(runv, setf, addtoks(toks, ev[3]['id'], {(ev[3]['id'], 'run')}))]
+            return [(runv, setf, addtoks(toks, ev[3]['id'], {(ev[3]['id'], 'run')}), tested, needs, did)]
         if ev[0] == 'load':
-            return [(runv, setf, addtoks(toks, ev[3]['id'], ()))]
+            new = {(ev[3]['id'], 'g', True)} if (ev[1] in gone and setf and ev[2] == SEQ_CST) else ()
+            return [(runv, setf, addtoks(toks, ev[3]['id'], new), tested, needs, did)]
+        if ev[0] == 'rmw' and ev[1] in gone and setf:
+            a_ = sy.atomic_op(ev[3])
+            if ev[2] == 'exchange' and a_ is not None and a_.get('value') is True and a_.get('order') == SEQ_CST:
+                return [(runv, setf, addtoks(toks, ev[3]['id'], {(ev[3]['id'], 'g', True)}), tested, needs, did)]
+            found.und(R3, 'start() examines %s with %s: not modelled' % (ev[1][1], ev[2]), ev[3])
+            return [st]
         if ev[0] == 'call':
             cf = tu.callee_fn(ev[2])
             if cf is not None and cf.get('rec') == LOOP:
@@ -924,22 +1028,42 @@ def check_start(E):
         atom, truth = sy.edge_truth(blk, si)
         tid = atom_token(tu, atom)
         truth = E.tok_truth(tid, truth)
-        runv, setf, toks = st
-        if tid is not None and any(t[0] == tid for t in toks):
-            runv = truth
-        return [(runv, setf, toks)]
+        runv, setf, toks, tested, needs, did = st
+        for t in toks:
+            if tid is None or t[0] != tid:
+                continue
+            if t[1] == 'run':
+                runv = truth
+            elif t[1] == 'g':
+                tested = True
+                if not truth:
+                    needs = True            # the mark was clear: the loop thread is gone (and the exchange set it again)
+            elif t[1] == 'df' and not truth:
+                tested = True               # no deferred launcher (the loop owns a parked thread): nothing to relaunch
+        return [(runv, setf, toks, tested, needs, did)]
 
-    res, outs = E.inl.explore(f, [(None, False, frozenset())], transfer, refine, C03Hooks(E, found, R3, toks_idx=2))
+    res, outs = E.inl.explore(f, [(None, False, frozenset(), False, False, False)], transfer, refine, C03Hooks(E, found, R3, toks_idx=2))
     E.count(R3)
     for (st, _rv, via) in outs:
-        runv, setf, toks = st
-        if g.blocks[via].noret or setf or runv is True:
+        runv, setf, toks, tested, needs, did = st
+        if g.blocks[via].noret:
             continue
         ents = [k for k in res.pred if k[0] == via]
-        found.viol(R3, FN, 'flag-not-set', 'start() can return on a path where shouldBeRunning was neither stored true nor observed '
-                   'true: the loop is never resumed', None, ents[0] if ents else None)
+        at = ents[0] if ents else None
+        if not (setf or runv is True):
+            found.viol(R3, FN, 'flag-not-set', 'start() can return on a path where shouldBeRunning was neither stored true nor observed '
+                       'true: the loop is never resumed', None, at)
+        if gone and setf and not tested:
+            found.viol(R3, FN, 'start-does-not-test-' + '-'.join(sorted(x[1] for x in gone)), 'the loop thread gives up its thread while '
+                       'stopped (after storing %s); start() stores shouldBeRunning = true but returns without examining that flag '
+                       '(seq_cst, after the store): nobody runs the loop any more' % ', '.join(sorted(x[1] for x in gone)), None, at)
+        if needs and not did:
+            found.viol(R3, FN, 'start-does-not-relaunch', 'start() learns that the loop thread is gone but returns without calling the '
+                       'launcher', None, at)
     emit(ctx, tu, g, res, found, 'AsyncLoop::start sets the flag [%s]' % tu.config, (R3,), tu.fn_loc(f),
-         {R3: 'every return: shouldBeRunning stored true or observed true'})
+         {R3: 'every return: shouldBeRunning stored true or observed true' +
+              ('; after the store the mark %s of a loop thread that gave up is examined and the launcher called'
+               % '/'.join(sorted(x[1] for x in gone)) if gone else '')})
 
 
 # ======================================================================================================
@@ -1134,6 +1258,18 @@ def check_ctor(E, f, closures):
                 if not okp:
                     found.und(R4, 'a std::thread running the loop closure is not assigned directly to the thread member', n)
                 return launch(st, 'thread')
+        if k == 'CXXOperatorCallExpr' and last(s.get('q')) == 'operator=' and (s.get('rec') or '').startswith('std::function'):
+            _s, obj, args = tu.call_parts(n)
+            fld_ = sy.field(obj) if obj is not None else None
+            lam2 = resolve_lambda(tu, sy, args[0]) if args else None
+            if fld_ is not None and fld_[0] == LOOP and sy.base_is_this(obj) and lam2 is not None:
+                inner = [x for x in tu.walk(lam2) if 'id' in x and x.get('kind') == 'CallExpr' and tu.sd(x).get('q') == SCHEDULE
+                         and len(tu.kids(x)) > 1 and is_loop(tu.kids(x)[1])]
+                if inner:
+                    # the member holds a callable that schedules the loop closure: launched later, by whoever calls it
+                    E.deferred = fld_
+                    kinds.add('task')
+                    return [('deferred' if st[0] is None else 'twice',) + st[1:]]
         if is_body_call(tu, n, f['params'][0]['id']):
             found.viol(R1, FN, 'body-called-by-constructor', 'the constructor itself invokes the user body, outside the loop thread and '
                        'its handshake', n)
@@ -1457,6 +1593,11 @@ def check_acks(E, closures):
             ctx.ok(R5, inst, 'waits for insideLoopBody == false: the loop thread never sleeps with the flag set (R-C03-2)', loc)
         else:
             ctx.undecided(R5, inst, 'stop() busy-waits on %s: not modelled' % sorted('%s == %s' % (a[0][1], a[1]) for a in alts), loc)
+    if E.stop_waits and not find_spins(E, E.stop):
+        E.count(R5)
+        ctx.ok(R5, 'wait of stop() for the body to end [%s]' % tu.config, 'stop() sleeps on a condition variable until '
+               'insideLoopBody == false; that it is woken is R-C03-3 (every store that makes the predicate true is under the mutex '
+               'and notified)', tu.loc(E.stop_waits[0]))
     for fn, b, alts, escapes in find_spins(E, E.dtor):
         E.count(R5)
         what = ' or '.join(sorted('%s == %s' % (a[0][1], str(a[1]).lower()) for a in alts))
@@ -1722,11 +1863,12 @@ def check_tu(ctx, tu):
         n += check_signals(E, f, 'AsyncLoop::AsyncLoop', 'AsyncLoop::AsyncLoop')
         for lam, op in cl:
             n += check_signals(E, op, 'loop closure', CLOSURE)
+    for f, cl in per_ctor:
+        check_ctor(E, f, cl)        # also finds a deferred launcher, which start() is then expected to use
     check_start(E)
     check_initial(E)
     check_dtor(E)
     for f, cl in per_ctor:
-        check_ctor(E, f, cl)
         for lam, op in cl:
             check_loop_exit(E, f, lam, op)
     check_acks(E, per_ctor)
